@@ -44,12 +44,26 @@ def _emit(agg, desc):
         agg.violation(k, sig, desc, d + "\n" + malformed.text_of(desc)[:800])
 
 
+def _file_bytes(d):
+    return bytes.fromhex(d["hex"]) if d.get("fam") == "bytes" else malformed.text_of(d).encode("utf-8")
+
+
+def _reference_text(data: bytes):
+    """what the tool is documented to analyse: the file decoded as UTF-8, or as Latin-1 when it is not valid UTF-8; universal newlines"""
+    try:
+        t = data.decode("utf-8")
+    except UnicodeDecodeError:
+        t = data.decode("latin-1")
+    return t.replace("\r\n", "\n").replace("\r", "\n")
+
+
 def eval_files(lang, descs):
-    """file-level: loc == sum(values) and scan_path agrees with scan_file"""
+    """file-level: loc == sum(values), scan_path agrees with scan_file on the decoded text, and every measurement is well-formed
+    with respect to that text (a file that is not UTF-8 is read as Latin-1: nothing is dropped or replaced)"""
     from codelimit.common.Scanner import scan_path
 
     out = []
-    files = {f"s{i}.{canon.EXT[lang]}": malformed.text_of(d) for i, d in enumerate(descs)}
+    files = {f"s{i}.{canon.EXT[lang]}": _file_bytes(d) for i, d in enumerate(descs)}
     with harness.temp_tree(files) as root:
         harness.reset_globals()
         try:
@@ -65,12 +79,16 @@ def eval_files(lang, descs):
             vals = [m.value for m in e.measurements()]
             if e.loc != sum(vals):
                 out.append(("file-total-is-not-sum-of-lengths", {"language": lang}, d, f"loc={e.loc} sum={sum(vals)}"))
+            text = _reference_text(files[name])
+            got = oracle.as_tuples(e.measurements())
+            for k, sig, detail in oracle.wellformed(lang, text, got):
+                out.append((k, dict(sig, level="file"), d, detail))
             try:
-                direct = oracle.as_tuples(oracle.scan_text(lang, files[name]))
+                direct = oracle.as_tuples(oracle.scan_text(lang, text))
             except Exception:
                 continue
-            if oracle.as_tuples(e.measurements()) != direct:
-                out.append(("scan-path-differs-from-scan-file", {"language": lang}, d, ""))
+            if got != direct:
+                out.append(("scan-path-differs-from-scan-file", {"language": lang}, d, f"{got[:2]} vs {direct[:2]}"))
     return out
 
 
@@ -102,11 +120,23 @@ def _block(block, agg):
             descs.append({"fam": "text", "lang": lang, "text": canon.render(sk)[0]})
         many = {"lang": lang, "items": [programs.func(f"q{i}", [programs.S("simple")] * (i + 1)) for i in range(7)]}
         descs.append({"fam": "text", "lang": lang, "text": canon.render(many)[0]})
+        from mc.gen import wild
+        for wname, _t in wild.snippets(lang):
+            descs.append({"fam": "wild", "lang": lang, "name": wname})
+        # files in a legacy 8-bit encoding with non-ASCII letters in function names and in front of them, and files with CR / CRLF ends
+        two = canon.render(programs.skeletons(lang)["two"])[0]
+        legacy = two.replace("f0", "gr\u00f6\u00dfe").replace("f1", "caf\u00e9")
+        lead = "#" if lang == "Python" else "//"
+        legacy = f"{lead} \u00e9\u00e8 legacy header\n" + legacy
+        for enc in ("latin-1", "cp1252", "utf-8"):
+            descs.append({"fam": "bytes", "lang": lang, "hex": legacy.encode(enc).hex()})
+        descs.append({"fam": "bytes", "lang": lang, "hex": two.replace("\n", "\r\n").encode().hex()})
+        descs.append({"fam": "bytes", "lang": lang, "hex": two.replace("\n", "\r").encode().hex()})
         for k, sig, d, detail in eval_files(lang, descs):
             if k == "__raised__":
                 agg.extra["analysis_raised_or_timed_out(see C03)"] += 1
                 continue
-            agg.violation(k, sig, {"fam": "file", "lang": lang, "text": malformed.text_of(d)}, detail)
+            agg.violation(k, sig, {"fam": "file", "lang": lang, "desc": d}, detail)
         agg.case({"fam": "files", "lang": lang, "n": len(descs)}, True, "files", sample=False)
     elif kind == "canon":
         _, lang, shard, n = block
@@ -120,7 +150,7 @@ def replay(case):
     if case.get("fam") == "files":
         return []
     if case.get("fam") == "file":
-        viol = eval_files(case["lang"], [{"fam": "text", "lang": case["lang"], "text": case["text"]}])
+        viol = eval_files(case["lang"], [case["desc"] if "desc" in case else {"fam": "text", "lang": case["lang"], "text": case["text"]}])
         return [{"kind": k, "sig": s, "detail": d} for k, s, _, d in viol if k != "__raised__"]
     _, viol = eval_desc(case)
     return [{"kind": k, "sig": s, "detail": d} for k, s, d in viol]
